@@ -25,6 +25,9 @@ def gen_cases(ctx):
         elif u < 0.13:
             # a parameterised instance; successive calls see different parameters of the same class
             c["inner"], c["p"], c["mul"] = "pow", rng.choice([1, 2, 3]), rng.choice([1, 2, 3])
+        elif u < 0.21:
+            # an inner distance that is not symmetric in its two arguments: d(x, y) != d(y, x)
+            c["inner"], c["up"], c["down"] = "asym", rng.choice([2, 3]), 1
         cases.append(c)
     out = []
     for c in cases:
@@ -46,6 +49,9 @@ CORPUS = [
 
 
 def lean_op(case):
+    if case.get("inner") == "asym":
+        costs = [case["up"] * (a - b) if a > b else case["down"] * (b - a) for a in case["s1"] for b in case["s2"]]
+        return dc.lean_op(dict(case, inner="abs"), engine="py", costs=costs)
     if case.get("inner") in ("cube", "pow"):
         p, sc = (3, 1) if case["inner"] == "cube" else (case["p"], case["mul"])
         costs = [sc * abs(a - b) ** p for a in case["s1"] for b in case["s2"]]
@@ -55,7 +61,7 @@ def lean_op(case):
 
 
 def expected(case, n):
-    if case.get("inner") in ("cube", "pow"):
+    if case.get("inner") in ("cube", "pow", "asym"):
         return math.inf if n == "inf" else float(n // dc.SCALE)
     return dc.expected_from_internal(case, n)
 
@@ -80,7 +86,7 @@ def run(ctx):
         got = impl.py_distance(case, container)
         res.evaluations += 1
         check_case(ctx, res, case, out, got, container)
-        if i % 7 == 0 and len(nonumpy_cases) < (4000 if ctx.thorough else 400) and case.get("inner") not in ("cube", "pow"):
+        if i % 7 == 0 and len(nonumpy_cases) < (4000 if ctx.thorough else 400) and case.get("inner") not in ("cube", "pow", "asym"):
             nonumpy_cases.append((case, out))
     # NumPy-absent run in a sub-process
     job = [[[c, "list"], {}] for c, _ in nonumpy_cases]
